@@ -54,7 +54,7 @@ def instances(tier, seed):
         if npolls >= 2 and sum(s['jobs']) >= 2: me -= 1      # every poll multiplies the "nothing yet" choices
         inst = dict(s, max_events=max(2, me))
         if sum(s['jobs']) >= 2:
-            inst['_split'] = 10 + 4 * sum(s['jobs'])       # explore the first decisions here, hand the sub-trees to the pool
+            inst['_split'] = 4       # explore the first decisions here, hand the sub-trees to the pool
         out.append(inst)
     out.sort(key=lambda i: -i['max_events'] * sum(i['jobs']))
     return out
